@@ -1,11 +1,16 @@
 From TFL Require Export Harness.Compare Model.PWLProject.
 Open Scope Q_scope.
+(* CTol t c: case c compared with relative tolerance t instead of the default
+   1e-9 (float32 cases: 1e-5). *)
 Inductive case :=
 | CProj (c : pwl_cfg) (units : nat) (W out : list (list Q))
-| CNaive (lo hi : option Q) (w out : list Q).
+| CNaive (lo hi : option Q) (w out : list Q)
+| CTol (t : Q) (c : case).
 Definition tol : Q := 1 # 1000000000.
-Definition check (c : case) : bool :=
+Fixpoint check_with (t : Q) (c : case) : bool :=
   match c with
-  | CProj cfg units W out => qmat_close tol (pwl_project cfg units W) out
-  | CNaive lo hi w out => qlist_close tol (map (naive_bounds lo hi) w) out
+  | CProj cfg units W out => qmat_close t (pwl_project cfg units W) out
+  | CNaive lo hi w out => qlist_close t (map (naive_bounds lo hi) w) out
+  | CTol t' c' => check_with t' c'
   end.
+Definition check (c : case) : bool := check_with tol c.
